@@ -25,7 +25,7 @@ func init() {
 		Setup:   cliSetup,
 		Run: func(env *core.Env, ci any) core.Outcome {
 			c := ci.(*MCase)
-			opts := canon.Options{}
+			opts := canon.Options{KeepParens: true}
 			if strings.HasPrefix(c.Tag, "import-decl") {
 				opts.MaskImports = true
 			}
